@@ -496,6 +496,12 @@ class SysRun:
                 pass
         items_before = list(world.mock.Comment.items)
         r = world.run_job(ev)
+        if ev.get('expect_no_clone'):
+            g = world.berte.git_repo
+            self.count('scripted:non_cloning_job:%s' % ('confirmed' if g.cmd_directory == g.tmp_directory
+                                                       else 'CLONED'))
+            self.count('scripted:%s:%s' % (ev.get('kind_label', '?'), r.get('status')))
+            self.nontrivial.add('scripted:%s:%s' % (ev.get('kind_label', '?'), r.get('status')))
         drained = world.drain()
         self.jobs += 1
         idx = self.jobs
@@ -631,6 +637,68 @@ class SysRun:
                     prev = None
         finally:
             world.close()
+
+
+SCRIPT_CFG = {'layout': [[4, 3, None, []], [5, 1, None, []], [10, 0, None, []]], 'use_queue': True,
+              'skip_queue': False, 'no_octopus': False, 'peers': 0, 'leaders': 0, 'need_author': False,
+              'build_key': 'pre-merge', 'always_prs': True, 'always_branches': True, 'cmd_line_options': []}
+
+
+def scripted_histories():
+    """Scripted family 'state kept between jobs': for every kind of job that ends after the remote heads were
+    listed but before the repository is cloned, [that job] -> a change made from outside (a push on the source
+    branch / a commit on an integration branch / a new pull request branch) -> the commit event for the new tip
+    (and the pull request event).  Run on the long-lived instance and with a fresh BertE per job like every
+    other history: an instance that keeps anything from the earlier job answers differently."""
+    src, dst, w = 'bugfix/TEST-1', 'development/4.3', 'w/5.1/bugfix/TEST-1'
+    kinds = {
+        'help': [{'e': 'comment', 'user': 'author', 'pr': 1, 'text': '@bert-e help'}],
+        'status': [{'e': 'comment', 'user': 'peer', 'pr': 1, 'text': '@bert-e status'}],
+        'not_implemented': [{'e': 'comment', 'user': 'author', 'pr': 1, 'text': '@bert-e retry'}],
+        'unknown_command': [{'e': 'comment', 'user': 'author', 'pr': 1, 'text': '@bert-e frobnicate'}],
+        'denied_option': [{'e': 'comment', 'user': 'author', 'pr': 1, 'text': '@bert-e bypass_build_status'}],
+        'wait': [{'e': 'comment', 'user': 'author', 'pr': 1, 'text': '@bert-e wait'}],
+        'after_pull_request': [{'e': 'comment', 'user': 'author', 'pr': 1, 'text': '@bert-e after_pull_request=2'}],
+        'commit_without_pull_request': [],
+    }
+    # comments that keep blocking the pull request are deleted again before the outside change
+    blocking = ('unknown_command', 'denied_option', 'wait', 'after_pull_request')
+    res = []
+    for kind, pre in kinds.items():
+        n = [0]
+
+        def label():
+            n[0] += 1
+            return 's%d' % n[0]
+
+        def quiet_job():
+            evs = list(pre)
+            if kind == 'commit_without_pull_request':
+                evs.append({'e': 'job_commit', 'ref': 'development/10.0', 'expect_no_clone': True, 'kind_label': kind})
+            else:
+                evs.append({'e': 'job_pr', 'pr': 1, 'expect_no_clone': True, 'kind_label': kind})
+            if kind in blocking:
+                evs.append({'e': 'delete_comment', 'user': 'author', 'pr': 1, 'idx': -1})
+            return evs
+        ev = [{'e': 'create_pr', 'src': src, 'dst': dst, 'label': label()},
+              {'e': 'create_pr', 'src': 'feature/TEST-2', 'dst': 'development/10.0', 'label': label()},
+              {'e': 'job_pr', 'pr': 1}]
+        # (1) a push on the source branch, then the commit event of the new tip, then the pull request event
+        ev += quiet_job()
+        ev += [{'e': 'push', 'branch': src, 'label': label()}, {'e': 'job_commit', 'ref': src}, {'e': 'job_pr', 'pr': 1}]
+        # (2) a commit on an integration branch
+        ev += quiet_job()
+        ev += [{'e': 'push', 'branch': w, 'label': label(), 'as': 'author'}, {'e': 'job_commit', 'ref': w},
+               {'e': 'job_pr', 'pr': 1}]
+        # (3) a new pull request branch
+        ev += quiet_job()
+        ev += [{'e': 'create_pr', 'src': 'bugfix/TEST-3', 'dst': 'development/5.1', 'label': label()},
+               {'e': 'job_commit', 'ref': 'bugfix/TEST-3'}, {'e': 'job_pr', 'pr': 5}]
+        # (4) the pull request event alone after a push (no commit event)
+        ev += quiet_job()
+        ev += [{'e': 'push', 'branch': src, 'label': label()}, {'e': 'job_pr', 'pr': 1}]
+        res.append({'cfg': dict(SCRIPT_CFG), 'events': ev, 'family': 'scripted:' + kind})
+    return res
 
 
 def history_pair(args):
